@@ -16,13 +16,30 @@ void Group::replaceEntities(const std::vector<T> &entities)
 {
     base::IGroup *ig = backend();
     ObjectType ot = objectToType<T>::value;
+    typedef typename objectToType<T>::backendType backend_type;
 
-    while (ig->entityCount(ot) > 0) {
-        ig->removeEntity(ig->getEntity<typename objectToType<T>::backendType>(0));
+    // remember the current members: they are put back if a new one is rejected
+    std::vector<T> old;
+    for (ndsize_t i = 0; i < ig->entityCount(ot); i++) {
+        old.push_back(T(ig->getEntity<backend_type>(i)));
     }
 
-    for (const auto &e : entities) {
-        ig->addEntity(e);
+    while (ig->entityCount(ot) > 0) {
+        ig->removeEntity(ig->getEntity<backend_type>(0));
+    }
+
+    try {
+        for (const auto &e : entities) {
+            ig->addEntity(e);
+        }
+    } catch (...) {
+        while (ig->entityCount(ot) > 0) {
+            ig->removeEntity(ig->getEntity<backend_type>(0));
+        }
+        for (const auto &e : old) {
+            ig->addEntity(e);
+        }
+        throw;
     }
 }
 
